@@ -247,6 +247,7 @@ func c07BodyOpt(c *run.Ctx, interval int, forceNoHold bool) {
 		RearmOnLeave: true,
 		ExpectStalls: true,
 	}
+	lateExtID, lateExtDur := "", 0
 	o.Prepare = func(s *sim.Sim) {
 		l.last = s.Now().State.Status
 		s.InCallback = func(sm *sim.Sim, name string, t *pokertable.Table) {
@@ -259,6 +260,13 @@ func c07BodyOpt(c *run.Ctx, interval int, forceNoHold bool) {
 				}
 				sm.TE.CloseTable()
 				atomic.StoreInt32(&l.closedFirm, 1)
+			}
+			if lateExtID != "" && name == pokertable.TableStateEvent_GameSettled {
+				// a late "more time" request that arrives while the hand is being settled: whatever
+				// it does to the deadline, nothing of it may be left between hands
+				id := lateExtID
+				lateExtID = ""
+				sm.TE.PlayerExtendActionDeadline(id, lateExtDur)
 			}
 			if setupInCB && name == pokertable.TableStateEvent_GameSettled {
 				// the competition side arms the next hand from the settlement notification and
@@ -333,6 +341,14 @@ func c07BodyOpt(c *run.Ctx, interval int, forceNoHold bool) {
 		}
 		if n >= 2 {
 			handsInARow++
+		}
+		lateExtID = ""
+		if choose.Chance(c.Ch, "ctl.ext.late", 15) {
+			if live := sim.LivePlayers(s.Now()); len(live) > 0 {
+				lateExtID = live[c.Ch.Int("ctl.ext.late.who", 0, len(live)-1)]
+				lateExtDur = c.Ch.Int("ctl.ext.late.d", 1, 60)
+				s.Label("extension_during_settlement")
+			}
 		}
 		if interval > 0 {
 			delayOp = ""
